@@ -140,6 +140,9 @@ func ctxKeyValue(spec string) any {
 }
 
 func ctxIDFor(spec string) int {
+	if strings.HasSuffix(spec, ":zero") {
+		return 0 // a value that is present in the context and equals the zero value of its type
+	}
 	h := 0
 	for _, c := range spec {
 		h = h*31 + int(c)
@@ -576,6 +579,7 @@ func ctxSets() []ctxSet {
 		{keys: []string{"s:absent", "s:ctxs", "S:gone", "S:ctxS"}, has: []string{"s:ctxs", "S:ctxS"}},
 		{keys: []string{"s:ctxs"}, has: nil, nilCtx: true},
 		{keys: []string{"s:k6", "s:k5", "S:k4", "s:k3", "x:k2", "s:k1", "s:ctxs"}, has: []string{"s:k6", "s:k5", "S:k4", "s:k1", "s:ctxs", "x:k2"}},
+		{keys: []string{"s:zero", "S:zero"}, has: []string{"s:zero", "S:zero"}},
 	}
 }
 
@@ -611,7 +615,7 @@ func c07cases(thorough bool, emit func(c07case)) {
 				for si, cs := range ctxSets() {
 					// the full cross product is used for short chains; for longer chains
 					// the context sets rotate (every set still meets every chain shape class)
-					if len(ch) >= 3 && !thorough && si != ci%7 {
+					if len(ch) >= 3 && !thorough && si != ci%8 {
 						continue
 					}
 					for _, r := range []bool{false, true} {
